@@ -11,7 +11,8 @@ Abs(cs) == [abs |-> TRUE, comps |-> cs]
 (* spellings of P/x, P/s/x, P/xx, P/y and look-alikes (u1/u2: the same text in NFC and NFD, X: another case) *)
 Pool == { Rel(<<"x">>), Rel(<<".", "x">>), Rel(<<"s", "..", "x">>), Rel(<<"..", "x">>), Rel(<<"s", "x">>),
           Rel(<<"xx">>), Rel(<<"y">>), Rel(<<"..", "s", "x">>), Rel(<<"u1">>), Rel(<<"u2">>), Rel(<<"X">>),
-          Rel(<<"s", "", "x">>), Rel(<<"x", "">>), Abs(<<"P", "", "s", "x">>),     \* "s//x", "x/", "/P//s/x"
+          Rel(<<"s", "", "x">>), Rel(<<"x", "">>), Abs(<<"P", "", "s", "x">>),
+          Rel(<<"x", "y">>), Rel(<<"s", "x", "deep", "y">>),     \* files *inside* what is elsewhere a declared path: other files     \* "s//x", "x/", "/P//s/x"
           Abs(<<"P", "x">>), Abs(<<"P", ".", "x">>), Abs(<<"P", "s", "..", "x">>), Abs(<<"P", "s", "x">>),
           Abs(<<"P", "s", ".", "..", "y">>) }
 Small(S) == {x \in SUBSET S : Cardinality(x) <= MaxIO}
@@ -22,6 +23,12 @@ Universe == [1..ND -> [wd : Wds, ins : Small(Pool), outs : Small(Pool)]]
 Chosen == IF Sample = 0 THEN Universe ELSE RandomSubset(Sample, Universe)
 Scn(u) == [kind |-> "graph", decls |-> [i \in 1..ND |-> [name |-> Names[i], wd |-> u[i].wd, ins |-> u[i].ins, outs |-> u[i].outs]]]
 ASSUME Part = "graph" => \A u \in Chosen : PrintT(ToJson(Scn(u)))
+(* a file *inside* a path another target declares as output is another file: no edge, whatever exists on disk *)
+NestedFam == {[kind |-> "graph", decls |-> << [name |-> "A", wd |-> w1, ins |-> {}, outs |-> {o}],
+                                             [name |-> "B", wd |-> w2, ins |-> {i}, outs |-> {Rel(<<"y">>)}] >>] :
+                w1 \in Wds, w2 \in Wds, o \in {Rel(<<"x">>), Rel(<<"s", "x">>), Abs(<<"P", "x">>)},
+                i \in {Rel(<<"x", "y">>), Rel(<<"s", "x", "deep", "y">>), Abs(<<"P", "x", "y">>)}}
+ASSUME Part = "graph" => \A x \in NestedFam : PrintT(ToJson(x))
 
 ---------------------------------------------------------------------------
 (* C19 scenarios *)
